@@ -14,8 +14,10 @@
 (*            STRING]), parallel, executor, cleanup, folder : BOOLEAN]     *)
 (*            (sdict = the per-output storage dictionary in insertion      *)
 (*            order, key <<>> = the default entry "", empty = `storage`    *)
-(*            is the single name; executor = "an Executor object is        *)
-(*            passed", folder = "a run folder is given"),                  *)
+(*            is the single name; executor = "an Executor is passed", bare *)
+(*            or as a dictionary; ekeys = the keys of the dictionary form  *)
+(*            ({"": pool}, {"y": pool, "": pool}), <<>> = a bare Executor; *)
+(*            folder = "a run folder is given"),                           *)
 (*   prev    [desc, inputs]: the (valid, completed) run whose results the  *)
 (*            run folder holds when the request arrives,                   *)
 (*   entry   "map" (Pipeline.map) | "call" (pipeline(out, **kw) / run),    *)
@@ -79,7 +81,9 @@ ConstructOK(dd) == /\ UniqueOutputs(dd) /\ OutputNotOwnParam(dd) /\ Acyclic(dd) 
 
 ---------------------------------------------------------------------------
 (* Clauses of the start of map (prepare_run). *)
-ExecutorNeedsParallel(c) == c.executor => c.parallel
+(* an executor in either documented form - a bare Executor or a dictionary output name(s) / "" -> Executor (c.ekeys) - *)
+(* needs parallel=True (first statement of prepare_run)                                                                *)
+ExecutorNeedsParallel(c) == (c.executor \/ c.ekeys # <<>>) => c.parallel
 (* the root arguments: parameters that no function produces and that some function takes unbound *)
 RootArgs(dd) == {p \in AllParams(dd) \ AllOutputs(dd) : \E i \in FIdx(dd) : p \in ParamsOf(dd, i) /\ ~IsBound(dd, i, p)}
 CompleteInputs(dd, inputs)  == \A p \in RootArgs(dd) : PHas(inputs, p) \/ HasDefault(dd, p)
